@@ -48,4 +48,25 @@ theorem matVecZ_eq (m : List (List Nat)) (v : List (ZMod P)) :
     matVecZ m v = m.map (fun r => dotZ r v) := by
   rw [matVecZ]
 
+/-- the same for the list functions: the core lemmas are `rfl` lemmas, which `simp` applies
+    definitionally; these copies carry a proof term -/
+theorem map_cons' {α β : Type} (f : α → β) (a : α) (l : List α) : List.map f (a :: l) = f a :: List.map f l := by
+  rw [List.map_cons]
+
+theorem map_nil' {α β : Type} (f : α → β) : List.map f ([] : List α) = [] := by
+  rw [List.map_nil]
+
+theorem zipWith_cons' {α β γ : Type} (f : α → β → γ) (a : α) (b : β) (l : List α) (m : List β) :
+    List.zipWith f (a :: l) (b :: m) = f a b :: List.zipWith f l m := by
+  rw [List.zipWith_cons_cons]
+
+theorem zipWith_nil' {α β γ : Type} (f : α → β → γ) : List.zipWith f ([] : List α) ([] : List β) = [] := by
+  rw [List.zipWith_nil_left]
+
+theorem sum_cons' (a : ZMod P) (l : List (ZMod P)) : (a :: l).sum = a + l.sum := by
+  rw [List.sum_cons]
+
+theorem sum_nil' : ([] : List (ZMod P)).sum = 0 := by
+  rw [List.sum_nil]
+
 end WinterProofs.C11.RoundCommon
